@@ -266,3 +266,21 @@ def run(repo: Repo, rep: Report, tier: str) -> None:
               "(a shifted pole covers nothing and is trimmed)", select=lambda o: "preserves fixed positions" in o.construct or "fixed" in o.construct, floor=1)
     _borrow18(repo, rep, "C09", "C09-R4", "C18-R9", "adding poles changes nothing else: only the grid's own poles are ever trimmed or offered as relays — the flag that marks them is set by "
               "the power planner alone", select=lambda o: "may mark a placement as a grid pole" in o.construct or "is_power_pole" in o.construct, floor=1)
+
+    # ---------------- R10 --------------------------------------------------------------
+    rep.rule("C18-R10", "requested poles are placed whatever the program consists of: the planner's grid step gives up early only on the option itself (no pole type requested); a "
+             "test on what kinds of entities the layout holds leaves lamps, inserters and other consumers without power")
+    apg = repo.func("LayoutPlanner._add_power_pole_grid")
+    gapg = CFG(apg.node)
+    rets10 = [s for s in gapg.stmts() if isinstance(s, ast.Return)]
+    grid_calls = [s for s in gapg.stmts() if not isinstance(s, (ast.If, ast.For, ast.While, ast.Try, ast.With)) and any(call_name(c) in ("add_power_pole_grid", "PowerPlanner") for c in calls_in(s))]
+    if not grid_calls:
+        raise AnalysisError("C18-R10: the call into the power planner was not found in _add_power_pole_grid")
+    early = [r for r in rets10 if not any(gapg.dominates(gc, r) for gc in grid_calls)]
+    rep.floor("C18-R10", "early returns before the grid is planned", len(early), 1)
+    for i10, r in enumerate(early):
+        gs10 = cguards(apg, r)
+        foreign = [g for g, pol in gs10 if "power_pole_type" not in g]
+        rep.check(not foreign, "C18-R10", f"_add_power_pole_grid gives up only when no pole type is requested (early return #{i10 + 1})",
+                  "; ".join(g for g, _ in gs10)[:90] if not foreign else
+                  f"returns early under `{foreign[0][:90]}`: with --power-poles a program of lamps and constant combinators gets no pole at all", apg.loc(r))
